@@ -19,6 +19,7 @@ RULE = ("cases: ACL programs with heading remarks at any position (none before t
         "contiguous with inner order after any permutation, sort() restores the numbered text, tcam_count() == "
         "1 + sum(prod(member counts or 1)) computed from the generated structure and constant under all the "
         "operations. Non-trivial: >= 2 blocks or a non-identity permutation; distinct by canonical case")
+RULE += ". Directed classes added after the seeded-change rounds: interface bindings on the ACL; one entry object / one block object listed twice; explicit blocks among plain entries; headings with commas"
 ASSUMPTIONS = ["'entry' = ACE: with duplicate heading texts the documented merge applies (duplicate heading remarks "
                "disappear, entries join the earlier block of the same heading)"]
 
